@@ -11,6 +11,7 @@
 package tagged
 
 import (
+	"reflect"
 	"bytes"
 	"encoding/json"
 	"fmt"
@@ -239,6 +240,45 @@ func fromGo(v interface{}, d int) *TV {
 		return t
 	}
 	return &TV{T: "?", V: fmt.Sprintf("%T:%v", v, v)}
+}
+
+// SharedContainer reports a map or non-empty list that is reachable by two different paths of v (a Map is a value, a
+// TREE: a mutator that stores one container object at several nodes makes later updates through one path change the others).
+func SharedContainer(v interface{}) string {
+	seen := map[uintptr]string{}
+	var walk func(x interface{}, path string) string
+	walk = func(x interface{}, path string) string {
+		switch c := x.(type) {
+		case mxj.Map:
+			return walk(map[string]interface{}(c), path)
+		case map[string]interface{}:
+			p := reflect.ValueOf(c).Pointer()
+			if prev, ok := seen[p]; ok {
+				return prev + " and " + path
+			}
+			seen[p] = path
+			for k, e := range c {
+				if r := walk(e, path+"."+k); r != "" {
+					return r
+				}
+			}
+		case []interface{}:
+			if len(c) > 0 {
+				p := reflect.ValueOf(c).Pointer()
+				if prev, ok := seen[p]; ok {
+					return prev + " and " + path
+				}
+				seen[p] = path
+			}
+			for i, e := range c {
+				if r := walk(e, fmt.Sprintf("%s[%d]", path, i)); r != "" {
+					return r
+				}
+			}
+		}
+		return ""
+	}
+	return walk(v, "")
 }
 
 // Canon is a deterministic rendering used for equality and as bag key.
